@@ -927,6 +927,16 @@ class Gen:
         return {"id": self.pid, "wdir": wdir, "entry": "ctx", "top": [self.obj_node("ctx", f, d, items, dirmode)]}
 
 
+def add_links(rng, prog, prob=0.3):
+    """turn some config / list / context files into symlinks to files kept in another directory"""
+    for n in all_nodes(prog["top"]):
+        if "file" in n and not n.get("dirmode") and rng.random() < prob:
+            fdir = os.path.dirname(n["file"])
+            others = [d for d in DIRS if d != fdir]
+            n["link"] = rng.choice(others)
+            n["decoy"] = rng.random() < 0.6
+
+
 def all_nodes(nodes):
     for n in nodes:
         yield n
@@ -1129,6 +1139,32 @@ def materialise(prog, root):
         with open(p, "w") as f:
             f.write(text)
 
+    def write_file(n, text):
+        """the config / list / context file of node n; when n["link"] names a directory the file is a SYMLINK to a file
+        kept there: the directory relative paths inside belong to is the one the file is NAMED in, not its target's"""
+        p = os.path.join(base, n["file"])
+        if n.get("link"):
+            t = os.path.join(base, n["link"], "t_" + os.path.basename(n["file"]))
+            touch(t, text)
+            os.symlink(os.path.relpath(t, os.path.dirname(p)), p)
+        else:
+            touch(p, text)
+        return p
+
+    def decoys(n):
+        """same-named files next to the link target: resolving against the target's directory goes unnoticed by the file system"""
+        if not n.get("link") or not n.get("decoy"):
+            return
+        for c in n.get("items", []):
+            if c["k"] != "path" or c.get("fail") or c["kind"] == "new" or c["rel"].startswith("/") or c["key"] == prog.get("dup"):
+                continue
+            q = os.path.normpath(os.path.join(base, n["link"], c["rel"]))
+            if q.startswith(base + "/") and not os.path.lexists(q) and os.path.isdir(os.path.dirname(q)):
+                if c["kind"] == "dir":
+                    os.mkdir(q)
+                else:
+                    touch(q, "decoy\n")
+
     def make_target(t, kind, fail, rel, cfg_dir):
         p = os.path.join(base, t)
         if fail == "missing" or fail == "el-missing":
@@ -1172,29 +1208,28 @@ def materialise(prog, root):
                 for i, e in enumerate(n["els"]):
                     make_target(e["target"], "file", "missing" if fail == "el-missing" and i == n.get("fail_el") else None, e["rel"], n["dir"])
                 if n["k"] == "list" and fail != "missing":
-                    p = os.path.join(base, n["file"])
                     if n["yaml"]:
-                        touch(p, "".join("- %s\n" % yaml_str(real(e["rel"])) for e in n["els"]))
+                        p = write_file(n, "".join("- %s\n" % yaml_str(real(e["rel"])) for e in n["els"]))
                     else:
-                        touch(p, "".join(real(e["rel"]) + "\n" for e in n["els"]))
+                        p = write_file(n, "".join(real(e["rel"]) + "\n" for e in n["els"]))
                     if fail == "unreadable":
                         os.chmod(p, 0)
             else:
                 write_nodes(n["items"])
+                decoys(n)
                 if n["k"] == "obj" and n["key"] == "ctx":
                     if not n["dirmode"]:
-                        touch(os.path.join(base, n["file"]))
+                        write_file(n, "x\n")
                     continue
                 if fail == "missing":
                     continue
-                p = os.path.join(base, n["file"])
                 if fail == "badyaml":
-                    touch(p, "{\n")
+                    write_file(n, "{\n")
                     continue
                 text = "".join("%s: %s\n" % (c["key"], value_of(c)) for c in n["items"])
                 if fail == "unknownkey":
                     text += "zz_unknown: 1\n"
-                touch(p, text or "{}\n")
+                p = write_file(n, text or "{}\n")
                 if fail == "unreadable":
                     os.chmod(p, 0)
 
@@ -1428,6 +1463,8 @@ def load_stage(ctx: Ctx, nprog):
         failed = False
         if p["entry"] in ("args", "dcf") and rng.random() < 0.4:
             failed = g.add_duplicates(p)
+        if rng.random() < 0.5:
+            add_links(rng, p)
         if not failed and rng.random() < 0.3:
             inject_failure(rng, p)
         progs.append(p)
@@ -1444,6 +1481,7 @@ def load_stage(ctx: Ctx, nprog):
         ctx.hist("load_entry", p["entry"])
         if p.get("dup"):
             ctx.hist("load_duplicate_key", p["dup"])
+        ctx.hist("load_symlinked_files", sum(1 for n in nodes if n.get("link")))
         ctx.hist("load_depth", depth)
         ctx.hist("load_outcome", "ok" if real["ok"] else "fail:" + str(real.get("exc")))
         for n in nodes:
@@ -1453,7 +1491,7 @@ def load_stage(ctx: Ctx, nprog):
             ctx.nontrivial("load|" + json.dumps(model_items(p), sort_keys=True) + "|" + p["wdir"] + "|" + p["entry"])
         corr, orc, known = judge_load(ctx, p, real, model)
         if known and ctx.is_open(known):
-            ctx.known(known, "a List[Path] argument rejects a line-per-path list file named by a relative spelling with a directory part (e.g. %s), the absolute spelling is accepted" % next(n["ref"] for n in nodes if n["k"] == "list"))
+            ctx.known(known, "a List[Path] argument rejects a line-per-path list file named by a relative spelling with a directory part (e.g. %s), the absolute spelling is accepted" % next((n["ref"] for n in nodes if n["k"] == "list" and not n["yaml"] and not list_stable("/FIX/g%d/%s" % (p["id"], n["dir"]), n["ref"])), "?"))
         elif known:
             orc = "parse fails (%s) although every path exists relative to its config file" % " ".join(real.get("msg", "").split())[-200:]
         if corr:
@@ -1520,7 +1558,8 @@ def run(ctx: Ctx):
         "the file system does not change between two probes of one Path() call (facts are one snapshot)",
         "os.stat/os.access/os.path.realpath/expanduser of the running Python are the oracle of the file system",
         "URL/fsspec paths, Windows and skip_check are outside; flags u and s only permit",
-        "directories holding config files are not symlinks (os.getcwd() after chdir equals normpath of the joined path)",
+        "DIRECTORIES on the way to config files are not symlinks (os.getcwd() after chdir equals normpath of the joined path); config, "
+        "list and context FILES may be symlinks: their directory is the one they are named in (dirname of .absolute), never the target's",
         "list files: nothing else lives where the second resolution of a relative spelling points",
         "path-typed arguments have no Path-object default (the `val == default` shortcut of adapt_typehints is the open finding C19-default-same-spelling)",
     ]
